@@ -160,6 +160,8 @@ TNext ==
      /\ LET d == IF Conform THEN StepDiff(e) ELSE {}
             rel == IF Conform THEN Relational(e) ELSE TRUE
             bad == StepViolations \cup StateViolations'
+                   \cup (IF e.a[1] = "Assert" /\ ~Converged'
+                         THEN (IF ResetLivelockSig' THEN {"C05.Converged#KF5"} ELSE {"C05.Converged"}) ELSE {})
         IN /\ ndrift' = IF d = {} /\ rel THEN ndrift
                         ELSE IF PrintT(<<"DRIFT", tid, l, e.a, d, rel>>) THEN ndrift + 1 ELSE ndrift + 1
            /\ nviol' = IF bad = {} THEN nviol
